@@ -30,6 +30,9 @@ type c12Case struct {
 	// Dest: "" = a bare io.Writer; "rich" = the same destination behind Flush() error, io.StringWriter
 	// and io.ReaderFrom, as *bufio.Writer and friends have them.
 	Dest string `json:"dest,omitempty"`
+	// SinkErr: the error value the failing destination reports: "" (a plain error), shortwrite (io.ErrShortWrite),
+	// wrapped-shortwrite, closedpipe, eof.
+	SinkErr string `json:"sink_err,omitempty"`
 }
 
 var errSink = errors.New("verif: injected sink failure")
@@ -42,11 +45,21 @@ type faultSink struct {
 	partial  bool
 	accepted int
 	failed   bool
+	// errv: the error value the destination reports (nil = errSink). Real destinations report io.ErrShortWrite
+	// (a full disk behind a bufio.Writer), io.ErrClosedPipe, io.EOF, syscall errors ...
+	errv error
+}
+
+func (s *faultSink) fail() error {
+	if s.errv != nil {
+		return s.errv
+	}
+	return errSink
 }
 
 func (s *faultSink) Write(p []byte) (int, error) {
 	if s.failed {
-		return 0, errSink
+		return 0, s.fail()
 	}
 	if s.limit < 0 || s.accepted+len(p) <= s.limit {
 		s.accepted += len(p)
@@ -56,9 +69,23 @@ func (s *faultSink) Write(p []byte) (int, error) {
 	if s.partial {
 		n := s.limit - s.accepted
 		s.accepted += n
-		return n, errSink
+		return n, s.fail()
 	}
-	return 0, errSink
+	return 0, s.fail()
+}
+
+func sinkErrValue(kind string) error {
+	switch kind {
+	case "shortwrite":
+		return io.ErrShortWrite
+	case "closedpipe":
+		return io.ErrClosedPipe
+	case "eof":
+		return io.EOF
+	case "wrapped-shortwrite":
+		return fmt.Errorf("write /var/spool/out: %w", io.ErrShortWrite)
+	}
+	return nil
 }
 
 // richSink is the same destination behind the optional interfaces that real destinations bring along
@@ -70,7 +97,7 @@ func (r *richSink) Write(p []byte) (int, error)       { return r.s.Write(p) }
 func (r *richSink) WriteString(x string) (int, error) { return r.s.Write([]byte(x)) }
 func (r *richSink) Flush() error {
 	if r.s.failed {
-		return errSink
+		return r.s.fail()
 	}
 	return nil
 }
@@ -207,7 +234,7 @@ func c12Run(c c12Case) []*core.Violation {
 			continue
 		}
 		for _, partial := range []bool{true, false} {
-			sink := &faultSink{limit: k, partial: partial}
+			sink := &faultSink{limit: k, partial: partial, errv: sinkErrValue(c.SinkErr)}
 			cc := c
 			n, err, pan := c12Render(&cc, sink)
 			rec.AddExtra("faulty_renders", 1)
@@ -240,6 +267,12 @@ func c12GenBase(t *rapid.T) c12Case {
 		Descriptions: true, Chunking: true,
 	}
 	spec := gen.Program(t, o)
+	if rapid.IntRange(0, 5).Draw(t, "emptysingle") == 0 {
+		// the smallest message there is: one body part without content (after the header block the writer
+		// has nothing left to write through the body path)
+		spec.Parts = []gen.PartSpec{{CType: "text/plain", Content: nil, Via: "string"}}
+		spec.Embeds, spec.Attachments, spec.Boundary = nil, nil, ""
+	}
 	// keep contents small: the check is exhaustive over offsets
 	trim := func(b []byte) []byte {
 		if len(b) > 90 {
@@ -264,7 +297,8 @@ func c12GenBase(t *rapid.T) c12Case {
 		spec.Headers = append(spec.Headers, gen.HeaderSpec{Name: "X-Gen", Values: []string{"a generic header value with enough words in it to be folded over more than one line for sure, yes"}})
 	}
 	c := c12Case{Spec: *spec, SecondRender: rapid.Bool().Draw(t, "second"), Sign: rapid.IntRange(0, 5).Draw(t, "sign") == 0,
-		Dest: rapid.SampledFrom([]string{"", "", "rich"}).Draw(t, "dest")}
+		Dest:    rapid.SampledFrom([]string{"", "", "rich"}).Draw(t, "dest"),
+		SinkErr: rapid.SampledFrom([]string{"", "", "shortwrite", "wrapped-shortwrite", "closedpipe", "eof"}).Draw(t, "sinkerr")}
 	if c.Sign {
 		c.Spec.FixedDate = false
 	}
